@@ -13,6 +13,7 @@ import (
 	"time"
 
 	"github.com/taurusgroup/multi-party-sig/pkg/party"
+	"github.com/taurusgroup/multi-party-sig/pkg/pool"
 	"github.com/taurusgroup/multi-party-sig/pkg/protocol"
 	"github.com/taurusgroup/multi-party-sig/verifharness/protos"
 )
@@ -176,6 +177,126 @@ func runPair(p pairT, seed int) string {
 	return problem
 }
 
+// runSession drives a session with one Accept goroutine and one Listen goroutine per party (system randomness, no
+// simulation lock), until every party has a result or an error, or the time is up.  Returns a problem or "".
+func runSession(sess *protos.Session, limit time.Duration) string {
+	hs := map[party.ID]protocol.Handler{}
+	for _, id := range sess.IDs {
+		h, err := sess.Makers[id]()
+		if err != nil {
+			return "construct: " + err.Error()
+		}
+		hs[id] = h
+	}
+	var wg sync.WaitGroup
+	stop := make(chan struct{})
+	var mu sync.Mutex
+	problem := ""
+	note := func(s string) {
+		mu.Lock()
+		if problem == "" {
+			problem = s
+		}
+		mu.Unlock()
+	}
+	inbox := map[party.ID]chan *protocol.Message{}
+	for _, id := range sess.IDs {
+		inbox[id] = make(chan *protocol.Message, 4096)
+	}
+	for _, id := range sess.IDs {
+		id := id
+		wg.Add(2)
+		go func() {
+			defer wg.Done()
+			for {
+				select {
+				case m, ok := <-hs[id].Listen():
+					if !ok {
+						return
+					}
+					for _, to := range sess.IDs {
+						if m.IsFor(to) {
+							inbox[to] <- m
+						}
+					}
+				case <-stop:
+					return
+				}
+			}
+		}()
+		go func() {
+			defer wg.Done()
+			defer func() {
+				if r := recover(); r != nil {
+					note(fmt.Sprintf("panic in Accept: %v", r))
+				}
+			}()
+			for {
+				select {
+				case m := <-inbox[id]:
+					hs[id].Accept(m)
+				case <-stop:
+					return
+				}
+			}
+		}()
+	}
+	deadline := time.Now().Add(limit)
+	for {
+		all := true
+		for _, id := range sess.IDs {
+			if _, err := hs[id].Result(); err != nil && strings.Contains(err.Error(), "not finished") {
+				all = false
+			}
+		}
+		if all || time.Now().After(deadline) {
+			break
+		}
+		time.Sleep(5 * time.Millisecond)
+	}
+	close(stop)
+	wg.Wait()
+	for _, id := range sess.IDs {
+		if _, err := hs[id].Result(); err != nil {
+			note(fmt.Sprintf("honest session: party %s ends with %v", id, err))
+		}
+	}
+	return problem
+}
+
+// pooledSession: CMP signing among three signers, every handler with its own pool of workers - the concurrency is
+// inside the handler (proofs for different peers are computed and verified on different goroutines that hash the
+// same public values).
+func pooledSession(primes string, seed int) string {
+	protos.InstallPrimeSource(primes)
+	ids := []party.ID{"a", "b", "c"}
+	cfgs := protos.CloneConfigs(protos.DealCmp(ids, 2, fmt.Sprintf("race%d", seed))) // clones: no object is shared between two parties
+	protos.Pool = pool.NewPool(4)
+	defer func() { protos.Pool.TearDown(); protos.Pool = nil }()
+	return runSession(protos.CmpSign(cfgs, ids, []byte("race message"), []byte("race")), 600*time.Second)
+}
+
+// sharedKeySessions: two signing sessions of the same parties run at the same time on the same Config objects.
+func sharedKeySessions(seed int) string {
+	ids := []party.ID{"a", "b", "c"}
+	kg, err := protos.Run(protos.FrostKeygen(ids, 1, seed%2 == 1, []byte("race-kg")), protos.RunOpts{Seed: fmt.Sprintf("race%d", seed)})
+	if err != nil || !kg.AllDone() {
+		return "" // not this check's business
+	}
+	var wg sync.WaitGroup
+	out := make([]string, 2)
+	for k := 0; k < 2; k++ {
+		k := k
+		wg.Add(1)
+		go func() {
+			defer wg.Done()
+			out[k] = runSession(protos.FrostSign(kg.Results, ids, []byte(fmt.Sprintf("message %d", k)), []byte(fmt.Sprintf("race-s%d", k))), 60*time.Second)
+		}()
+	}
+	wg.Wait()
+	return strings.TrimSpace(out[0] + " " + out[1])
+}
+
 // stopStorm races the calls that END a session against each other on many fresh handlers: two goroutines
 // released by a barrier call Stop / Stop, or Stop / Accept(abort notice). The window between "is it over?"
 // and "end it" is tiny, so one live session is not enough to hit it.
@@ -254,6 +375,9 @@ func main() {
 	out := flag.String("out", "", "summary")
 	seed := flag.Int("seed", 0, "seed")
 	storm := flag.Int("storm", 1500, "fresh handlers per handler type for the Stop storm")
+	pooled := flag.Int("pooled", 0, "CMP signing sessions with worker pools")
+	shared := flag.Int("shared", 0, "pairs of concurrent signing sessions on shared key material")
+	primes := flag.String("primes", "/verif/fixtures/safeprimes.json", "safe primes")
 	flag.Parse()
 	var pairs []pairT
 	raw, err := os.ReadFile(*in)
@@ -276,6 +400,18 @@ func main() {
 		fmt.Fprintf(os.Stderr, "PAIR-BEGIN %s %s %s\n", p.Handler, "Stop", "storm")
 		results = append(results, res{p, stopStorm(hname, *storm)})
 		fmt.Fprintf(os.Stderr, "PAIR-END %s %s %s\n", p.Handler, "Stop", "storm")
+	}
+	for k := 0; k < *shared; k++ {
+		p := pairT{Handler: "MultiHandler", A: "session", B: "shared-config"}
+		fmt.Fprintf(os.Stderr, "PAIR-BEGIN %s %s %s\n", p.Handler, p.A, p.B)
+		results = append(results, res{p, sharedKeySessions(*seed + k)})
+		fmt.Fprintf(os.Stderr, "PAIR-END %s %s %s\n", p.Handler, p.A, p.B)
+	}
+	for k := 0; k < *pooled; k++ {
+		p := pairT{Handler: "MultiHandler", A: "session", B: "worker-pool"}
+		fmt.Fprintf(os.Stderr, "PAIR-BEGIN %s %s %s\n", p.Handler, p.A, p.B)
+		results = append(results, res{p, pooledSession(*primes, *seed+k)})
+		fmt.Fprintf(os.Stderr, "PAIR-END %s %s %s\n", p.Handler, p.A, p.B)
 	}
 	b, _ := json.MarshalIndent(results, "", " ")
 	os.WriteFile(*out, b, 0o644)
